@@ -22,6 +22,10 @@ use crate::{
     Bencher,
 };
 
+#[cfg(divan_verif)]
+#[path = "verif/divan_hooks.rs"]
+pub mod verif_hooks;
+
 /// The benchmark runner.
 #[derive(Default)]
 pub struct Divan {
